@@ -17,7 +17,8 @@
     Every function that exists in two states takes [fx : bool]:
       fx = true   the code as it is now (after the `fix:` commits recorded in known/C15.json)
       fx = false  the code as it was in the design round (`_nofix`): [Nat] written as [(n as i32)],
-                  [v.remove(0)] / [drain(..n)] / [assert_eq!] / [unreachable!] / unknown magic number panic.
+                  [v.remove(0)] / [drain(..n)] / [assert_eq!] / [unreachable!] / unknown magic number /
+                  type_error(.., other.ref_t()) panic.
     Definitions only; proofs are in Proofs.v. *)
 From Coq Require Import ZArith List Bool Lia.
 From ErgV Require Import gen.MarshalTab.
@@ -417,22 +418,26 @@ Definition rd_bytes (fx : bool) (bs : list Z) : res (list Z * list Z) :=
   if negb (prefix_of b =? pfx_Str) then Err EBytes
   else '(n, r) <- rd_u32 fx r ;; take fx n r.
 
-(** Deserializer::deserialize_str_vec: a List/Tuple of Str *)
-Definition as_vstrs (v : value) : res (list (list Z)) :=
+(** DeserializeError::type_error(field, expect, other.ref_t()): [ValueObj::ref_t] panics unconditionally
+    ("cannot get reference of the const"), so in the design round every mistyped field crashed the reader;
+    the repaired code passes [other.class()] *)
+Definition type_err {A} (fx : bool) : res A := if fx then Err EType else Panic.
+(** Deserializer::deserialize_str_vec: a List/Tuple of Str (try_into_str on each element; the error for a
+    non-sequence is built with [other.class()] in both states) *)
+Definition as_vstrs (fx : bool) (v : value) : res (list (list Z)) :=
   match v with
   | VList l | VTuple l =>
-    fold_right (fun x acc => a <- acc ;; match x with VStr s => Ok (s :: a) | _ => Err EType end) (Ok []) l
+    fold_right (fun x acc => a <- acc ;; match x with VStr s => Ok (s :: a) | _ => type_err fx end) (Ok []) l
   | _ => Err EType
   end.
-(** the strings are converted front to back: the first non-Str element decides *)
-Definition rd_str_vec (rc : list Z -> res (value * list Z)) (bs : list Z) : res (list (list Z) * list Z) :=
-  '(v, r) <- rc bs ;; l <- as_vstrs v ;; Ok (l, r).
+Definition rd_str_vec (fx : bool) (rc : list Z -> res (value * list Z)) (bs : list Z) : res (list (list Z) * list Z) :=
+  '(v, r) <- rc bs ;; l <- as_vstrs fx v ;; Ok (l, r).
 (** Deserializer::deserialize_str *)
-Definition rd_str (rc : list Z -> res (value * list Z)) (bs : list Z) : res (list Z * list Z) :=
-  '(v, r) <- rc bs ;; match v with VStr s => Ok (s, r) | _ => Err EType end.
+Definition rd_str (fx : bool) (rc : list Z -> res (value * list Z)) (bs : list Z) : res (list Z * list Z) :=
+  '(v, r) <- rc bs ;; match v with VStr s => Ok (s, r) | _ => type_err fx end.
 (** Deserializer::deserialize_const_vec *)
-Definition rd_const_vec (rc : list Z -> res (value * list Z)) (bs : list Z) : res (list value * list Z) :=
-  '(v, r) <- rc bs ;; match v with VList l => Ok (l, r) | _ => Err EType end.
+Definition rd_const_vec (fx : bool) (rc : list Z -> res (value * list Z)) (bs : list Z) : res (list value * list Z) :=
+  '(v, r) <- rc bs ;; match v with VList l => Ok (l, r) | _ => type_err fx end.
 
 (** the partition loop of deserialize_locals (3.11) *)
 Fixpoint partition_kinds (fx : bool) (nk : list (list Z * Z))
@@ -458,14 +463,14 @@ Fixpoint partition_kinds (fx : bool) (nk : list (list Z * Z))
 Definition rd_locals (fx : bool) (rc : list Z -> res (value * list Z)) (ver : Z) (bs : list Z)
   : res (list (list Z) * list (list Z) * list (list Z) * list Z) :=
   if 11 <=? ver then
-    '(ns, r) <- rd_str_vec rc bs ;;
+    '(ns, r) <- rd_str_vec fx rc bs ;;
     '(ks, r) <- rd_bytes fx r ;;
     if negb (len ns =? len ks) then short fx                       (* assert_eq!(names.len(), kinds.len()) *)
     else '(vn, fv, cv) <- partition_kinds fx (combine ns ks) ;; Ok (vn, fv, cv, r)
   else
-    '(vn, r) <- rd_str_vec rc bs ;;
-    '(fv, r) <- rd_str_vec rc r ;;
-    '(cv, r) <- rd_str_vec rc r ;;
+    '(vn, r) <- rd_str_vec fx rc bs ;;
+    '(fv, r) <- rd_str_vec fx rc r ;;
+    '(cv, r) <- rd_str_vec fx rc r ;;
     Ok (vn, fv, cv, r).
 
 (** CodeObj::from_bytes; [rc] is deserialize_const of the code object's own Deserializer *)
@@ -481,12 +486,12 @@ Definition from_bytes_with (fx : bool) (rc : list Z -> res (value * list Z)) (ve
   '(stk, r) <- rd_u32 fx r ;;
   '(flg, r) <- rd_u32 fx r ;;
   '(code, r) <- rd_bytes fx r ;;
-  '(cst, r) <- rd_const_vec rc r ;;
-  '(nms, r) <- rd_str_vec rc r ;;
+  '(cst, r) <- rd_const_vec fx rc r ;;
+  '(nms, r) <- rd_str_vec fx rc r ;;
   '(vn, fv, cv, r) <- rd_locals fx rc ver r ;;
-  '(fnm, r) <- rd_str rc r ;;
-  '(nm, r) <- rd_str rc r ;;
-  '(qn, r) <- (if 11 <=? ver then rd_str rc r else Ok (nm, r)) ;;
+  '(fnm, r) <- rd_str fx rc r ;;
+  '(nm, r) <- rd_str fx rc r ;;
+  '(qn, r) <- (if 11 <=? ver then rd_str fx rc r else Ok (nm, r)) ;;
   '(fl, r) <- rd_u32 fx r ;;
   '(lt, r) <- rd_bytes fx r ;;
   '(et, r) <- (if 11 <=? ver then rd_bytes fx r else Ok ([], r)) ;;
